@@ -11,6 +11,7 @@ pub enum DiagnosticInfoMessage {
     CannotUseInterfaceInValuePosition,
     ExpressionIsNotAType,
     TupleRestTypeMustBeArray,
+    TupleRestElementMustBeLast,
     CannotUseStarImportInValuePosition,
     CannotUseStarImportInTypePosition,
     CannotUseTypeInQualifiedTypePosition,
@@ -558,6 +559,9 @@ impl DiagnosticInfoMessage {
             }
             DiagnosticInfoMessage::TupleRestTypeMustBeArray => {
                 "Rest type in tuple must be an array type".to_string()
+            }
+            DiagnosticInfoMessage::TupleRestElementMustBeLast => {
+                "A rest element followed by other tuple elements cannot be extracted".to_string()
             }
             DiagnosticInfoMessage::ExpressionIsNotAType => {
                 "Expression is not a type".to_string()
